@@ -29,7 +29,6 @@ claimed["C03"] = dict(
 na = {
  "C01": "validity / gofmt+gofumpt fixed point is decided inside go/parser, go/printer and mvdan.cc/gofumpt (pointer-rich AST code over arbitrary Go files): cannot be encoded for the solver; stubbing them would assume the property (DESIGN.md §5)",
  "C10": "ValueLit walks reflect.Values (runtime type descriptors, unsafe) and the oracle is the Go compiler evaluating the literal: not encodable (DESIGN.md §5)",
- "C11": "type-literal printer over reflect/go-types views; the oracle is types.Identical after type-checking the rendered text: not encodable (DESIGN.md §5)",
  "C16": "requires compiling and running generated programs (DESIGN.md §5)",
  "C17": "requires compiling and running generated programs (DESIGN.md §5)",
  "C18": "requires compiling and running generated programs (DESIGN.md §5)",
